@@ -2,6 +2,7 @@
 from core import (site_effects, is_effectful, variant_edges, enum_paths, path_atoms, path_calls, path_return, ret_variant, same_value, strip_site, fmt,
                   root_calls, subexprs, is_call_to, classify_external, field_path, mentions)
 from ackmodel import AckModel, thread_roots
+from sym import ipaths
 
 WITNESSES = ['W4DonePrivate', 'W6ExecutorUnreachable']
 LEVEL = "proof"
@@ -160,19 +161,7 @@ def worker_loop(ctx, A, W, RULE, drain_liveness=False):
         return None
     R = recv_blocks[0]
     rt = W.term(R)
-    rres = W.origin_call(R, rt)
-    pair = ("field", ("variant", rres, "Ok"), "0")
-    unwrapped = None
-    for b, t in W.calls():
-        if t["callee"] in ("std::result::Result::<T, E>::unwrap", "std::result::Result::<T, E>::expect") and strip_site(W.op_origin(t["args"][0])) == strip_site(rres):
-            unwrapped = (b, W.origin_call(b, t))
-            pair = unwrapped[1]
     ends = set(W.return_blocks()) | {R}
-    paths = enum_paths(W, start=R, ends=ends)
-    ctx.analysed["paths"] += len(paths)
-    cmd_variants = set()
-    bad = []
-    handlers = set()
     # drain sites: in the worker itself, or in a helper function it calls (the call is then the drain site of the loop)
     all_drains = [(f, bb, m) for f, bb, t, m in A.recv_sites if m in ("iter_next", "iter_for_each")]
     drain_helpers = {f.name for f, bb, m in all_drains if f is not W}
@@ -186,48 +175,55 @@ def worker_loop(ctx, A, W, RULE, drain_liveness=False):
     drain_sites = [bb for f, bb, m in all_drains if f is W] + [b_ for b_, t_ in W.calls() if t_.get("rpath") in drain_helpers]
     foreach_sites = [(f, bb) for f, bb, m in all_drains if m == "iter_for_each"]
     next_sites = [(f, bb) for f, bb, m in all_drains if m == "iter_next"]
+    # one loop iteration = a path from the dequeue back to it (or to the thread's end), walked path-sensitively: a status
+    # routed through a local enum, a `match` split in two, `recv().unwrap()` all give the same events
+    paths = ipaths(F, W, stop=lambda n: F.fns[n].kind != "Closure" if n in F.fns else True, depth=2, start=R, ends=ends, model_unwrap=True)
+    ctx.analysed["paths"] += len(paths)
+    cmd_variants = set()
+    bad = []
+    handlers = set()
     for p in paths:
-        atoms = path_atoms(W, p)
-        okatom = [a for a in atoms if a[0] == "enum" and strip_site(a[1]) == strip_site(rres)]
-        calls = path_calls(W, p)
-        if not okatom and unwrapped is not None and any(b == unwrapped[0] for b in p):
-            okatom = [("enum", rres, ("Ok",), unwrapped[0])]     # `recv().unwrap()` / expect: continuing means Ok
-        dones = [(b, t) for b, t in calls if t.get("rpath") in A.done_fns]
-        if not okatom or okatom[0][2] != ("Ok",):
+        re_ = [e for e in p.events if e.fn is W and e.bb == R]
+        if not re_:
+            continue
+        rres = re_[0].res
+        pair = ("field", ("variant", rres, "Ok"), "0")
+        dones = p.calls(A.done_fns)
+        if p.variant_of(rres) != ("Ok",):
             if dones:
                 bad.append(("acknowledgement completed although nothing was dequeued", p))
             continue
-        cv = [a for a in atoms if a[0] == "enum" and a[1][0] == "field" and a[1][2] == "command" and strip_site(a[1][1]) == strip_site(pair)]
-        if not cv:
+        names = p.variant_of(("field", pair, "command"))
+        if not names or any(n.startswith("!") for n in names):
             bad.append(("dequeued command is not matched on", p))
             continue
-        names = cv[0][2]
         cmd_variants |= set(names)
+        cmd_e = strip_site(("field", pair, "command"))
         # handlers: local calls that touch cache state (locks/queues); pure bookkeeping calls (statistics counters,
         # accessors) made by the loop itself are not command applications
-        local_calls = [(b, t) for b, t in calls if t["res"] == "item" and t.get("rlocal") and t.get("rpath") not in A.done_fns
-                       and (is_effectful(site_effects(F, W, b)) or any(mentions(W.op_origin(a), lambda s: s[0] == "variant" and strip_site(s[1]) == strip_site(("field", pair, "command"))) for a in t["args"]))]
-        drains = [b for b in p if b in drain_sites]
-        own = [(b, t) for b, t in dones if same_value(strip_ack(W.op_origin(t["args"][0])), ("field", pair, "acknowledgement"))]
+        local_calls = [e for e in p.events if not e.log and e.t["res"] == "item" and e.t.get("rlocal") and e.callee not in A.done_fns and e.callee not in drain_helpers
+                       and (is_effectful(site_effects(F, e.fn, e.bb)) or any(mentions(a, lambda s_: s_[0] == "variant" and strip_site(s_[1]) == cmd_e) for a in e.args))]
+        drains = [e for e in p.events if e.fn is W and e.bb in drain_sites]
+        own = [e for e in dones if same_value(strip_ack(e.args[0]), ("field", pair, "acknowledgement"))]
         if drains:
             # shutdown arm: own ack completed once with Accepted, before draining; every drained pair gets ShuttingDown
             if len(own) != 1:
                 bad.append(("shutdown arm completes its own acknowledgement %d times" % len(own), p))
             else:
-                st = W.op_origin(own[0][1]["args"][1])
+                st = own[0].args[1]
                 if not (st[0] == "agg" and st[2] == "Accepted"):
                     bad.append(("shutdown arm's own status is not Accepted", p))
-                if p.index(own[0][0]) > p.index(drains[0]):
+                if own[0].seq > drains[0].seq:
                     bad.append(("shutdown acknowledged after draining began", p))
-            for b, t in dones:
-                if (b, t) in own:
+            for e in dones:
+                if e in own:
                     continue
-                st = W.op_origin(t["args"][1])
-                a0 = strip_ack(W.op_origin(t["args"][0]))
+                st = e.args[1]
+                a0 = strip_ack(e.args[0])
                 from_drain = any(is_call_to(c, "::next") for c in root_calls(a0))
                 if not (st[0] == "agg" and st[2] == "ShuttingDown" and from_drain):
                     bad.append(("drained command not answered ShuttingDown on its own acknowledgement", p))
-            if p[-1] == R:
+            if p.blocks[-1] == R and len(p.blocks) > 1:
                 bad.append(("worker dequeues again after Shutdown", p))
             continue
         if len(own) != 1 or len(dones) != 1:
@@ -236,26 +232,24 @@ def worker_loop(ctx, A, W, RULE, drain_liveness=False):
         if len(local_calls) != 1:
             bad.append(("command %s runs %d handlers" % (names, len(local_calls)), p))
             continue
-        hb, ht = local_calls[0]
-        handlers.add(ht["rpath"])
-        if p.index(hb) > p.index(own[0][0]):
+        h = local_calls[0]
+        handlers.add(h.callee)
+        if h.seq > own[0].seq:
             bad.append(("acknowledged before the handler ran", p))
-        st = W.op_origin(own[0][1]["args"][1])
-        hres = W.origin_call(hb, ht)
-        members = st[1] if st[0] == "phi" else (st,)
-        if not any(strip_site(m) == strip_site(hres) for m in members) and not any(m[0] == "agg" and m[2] == "Accepted" for m in members):
-            bad.append(("status %s does not come from the handler" % fmt(st), p))
-        if mentions(st, lambda s: s[0] == "agg" and s[2] == "Pending"):
+        st = own[0].args[1]
+        if strip_site(st) != strip_site(h.res) and not (st[0] == "agg" and st[2] == "Accepted"):
+            bad.append(("status %s does not come from the handler" % fmt(st)[:80], p))
+        if mentions(st, lambda s_: s_[0] == "agg" and s_[2] == "Pending"):
             bad.append(("Pending used as a final status", p))
         # handler works on this command's payload
-        payload_ok = any(mentions(W.op_origin(a), lambda s: s[0] == "variant" and s[2] in names and strip_site(s[1]) == strip_site(("field", pair, "command"))) for a in ht["args"])
+        payload_ok = any(mentions(a, lambda s_: s_[0] == "variant" and s_[2] in names and strip_site(s_[1]) == cmd_e) for a in h.args)
         if not payload_ok:
             bad.append(("handler of %s does not receive this command's payload" % (names,), p))
-        if p[-1] != R:
+        if p.blocks[-1] != R:
             bad.append(("worker exits after a non-shutdown command", p))
     ctx.check(not bad and paths, RULE, "%s|one-handler-one-ack-per-command" % W.name,
               "per dequeued command: exactly one handler, run on the worker, then exactly one completion of that command's acknowledgement with the handler's status; Shutdown acknowledges itself then drains with ShuttingDown (%d loop paths)" % len(paths),
-              W.where(R), "; ".join("%s via %s" % x for x in bad[:3]))
+              W.where(R), "; ".join("%s %s" % (w_, q.show()) for w_, q in bad[:3]))
     for DW, db in foreach_sites:
         # drain written as receiver.iter().for_each(|pair| ..): on every path of the closure the received pair's own
         # acknowledgement is completed exactly once, with ShuttingDown
@@ -264,7 +258,7 @@ def worker_loop(ctx, A, W, RULE, drain_liveness=False):
         okc = c is not None
         n_paths = 0
         if okc:
-            from sym import ipaths
+
             for sp in ipaths(F, c, stop=lambda n: n in A.done_fns, depth=2):
                 n_paths += 1
                 ds = sp.calls(A.done_fns)
